@@ -1,8 +1,11 @@
 #!/usr/bin/env python3
-"""Regression over /verif/refactors: behaviour-preserving refactorings of the
-anchored code, written by independent sub-agents (each confirmed: unedited
-suite passes, the author's comparison script gives identical results on the
-clean and the patched tree).  Every check must stay silent (exit 0) on each of
+"""Regression over /verif/refactors and /verif/neutral: behaviour-preserving
+refactorings of the anchored code (each confirmed: unedited suite passes, the
+author's comparison script gives identical results on the clean and the patched
+tree) and behaviour-CHANGING patches that keep every property true (each
+confirmed: suite passes, the author's differs.py sees the new behaviour, the
+author's holds.py exercises the property on both trees), all written by
+independent sub-agents.  Every check must stay silent (exit 0) on each of
 them; an ANALYSIS-ERROR (exit 2) is listed separately -- it is not an alarm, but
 it means the checker can no longer read the code.
 
@@ -28,6 +31,17 @@ sys.path.insert(0, ROOT)
 ALL = ["C01", "C02", "C03", "C04", "C05", "C06", "C07", "C08", "C09", "C10",
        "C11", "C12", "C13", "C14", "C15", "C16", "C17", "C19", "C20"]
 PROPS = ALL
+
+
+def corpus_dirs(only=None):
+    """refactors/ = behaviour-preserving rewrites; neutral/ = behaviour-changing
+    patches that leave every property true.  Both must leave every check silent."""
+    out = []
+    for sub in ("refactors", "neutral"):
+        out += [d for d in glob.glob(os.path.join(ROOT, sub, "*"))
+                if os.path.isfile(os.path.join(d, "patch.diff"))
+                and (not only or only in d)]
+    return sorted(out)
 
 
 def run_one(arg):
@@ -66,9 +80,7 @@ def main(argv=None):
     ap.add_argument("-v", action="store_true")
     args = ap.parse_args(argv)
     props = args.props.split(",") if args.props else ALL
-    dirs = sorted(d for d in glob.glob(os.path.join(ROOT, "refactors", "*"))
-                  if os.path.isfile(os.path.join(d, "patch.diff"))
-                  and (not args.only or args.only in d))
+    dirs = corpus_dirs(args.only)
     alarms = errors = 0
     with ProcessPoolExecutor(max_workers=min(16, os.cpu_count() or 4)) as ex:
         for name, res, msg in ex.map(run_one, [(d, props) for d in dirs]):
